@@ -1,19 +1,28 @@
 """Write meta.json for every seeded change and the table seeded/RESULTS.md (which check catches which change)."""
 import json, os
 SEEDS = {
- "C01-s1": dict(breaks="C01 (also C04 C17)", needs="multiple inheritance: class C(A, B) with preconditions on A.f and B.f, C overrides f; the fault shows on base A after C is defined", caught_by="", status="metaclass units (_decorate_namespace_function) not yet under contract"),
+ "C01-s1": dict(breaks="C01 (also C04 C17)", needs="multiple inheritance: class C(A, B) with preconditions on A.f and B.f, C overrides f; the fault shows on base A after C is defined", caught_by="C17 C04 (_decorate_namespace_function: frame -- no pre-existing list object is mutated; replay histfam)", status="caught"),
  "C01-s2": dict(breaks="C01 (also C13)", needs="async method with >= 2 precondition groups, call violating the first group and satisfying a later one", caught_by="C01 C13 (_assert_preconditions_async loop obligations; replay 'groups')", status="caught"),
- "C02-s1": dict(breaks="C02 (also C04 C18)", needs="DBC subclass overriding a method with inherited postconditions, own contract decorator and a functools.wraps decorator on top", caught_by="find_checker contract (innermost object with the lists)", status="caught by the unit contract of find_checker; property cone of C14/C18 pending registration"),
+ "C02-s1": dict(breaks="C02 (also C04 C18)", needs="DBC subclass overriding a method with inherited postconditions, own contract decorator and a functools.wraps decorator on top", caught_by="find_checker contract (innermost object with the lists)", status="caught (C18 C14 C17)"),
  "C02-s2": dict(breaks="C02 (also C08)", needs="snapshot present, no postcondition condition names OLD, the violated postcondition's error factory names OLD", caught_by="C02 C08 (wrapper trace: CapBlock expected iff postconditions and snapshots)", status="caught"),
  "C11-s1": dict(breaks="C11", needs="async method of a class with invariants; invariant violated or raising on entry; later probe call on the same instance", caught_by="C11 (async invariant wrapper: suspension_state_restored; replay invfam 'async fault')", status="caught"),
  "C11-s2": dict(breaks="C11", needs="sync function with postcondition and snapshot whose capture raises; probe call afterwards", caught_by="C11 (sync checker wrapper: suspension_state_restored; replay callfam 'fault')", status="caught"),
  "C16-s1": dict(breaks="C16 (also C08 C13)", needs="async function with precondition, snapshot and postcondition; falsy precondition or order trace", caught_by="C16 C08 C13 (async wrapper: emit.CapBlock before PreBlock)", status="caught"),
- "C16-s2": dict(breaks="C16 (also C04)", needs="DBC hierarchy where an override adds its own ensure; two falsy postconditions", caught_by="", status="metaclass units (_collapse_postconditions) not yet under contract"),
+ "C16-s2": dict(breaks="C16 (also C04)", needs="DBC hierarchy where an override adds its own ensure; two falsy postconditions", caught_by="C04 C16 (_collapse_postconditions: bases_then_own; replay histfam 'chain with posts and snapshots')", status="caught"),
  "C05-s1": dict(breaks="C05", needs="keyword-only parameter with default not passed, call filling every positional slot", caught_by="C05 (kwargs_from_call loop invariants/ensures; replay bindfam)", status="caught"),
  "C05-s2": dict(breaks="C05", needs="async def with positional-only parameter and **kwargs, keyword named like the positional-only parameter", caught_by="C05 (async wrapper: call[kwargs_from_call].resolves_from_the_closure_variables; replay bindfam async rendering) -- obligation added after this seed was first missed", status="caught after strengthening"),
  "C10-s1": dict(breaks="C10", needs="sync function with postcondition and a snapshot whose capture calls the function (directly or mutually)", caught_by="C10 (sync wrapper: marker_held at call[_capture_old]; replay callfam 'reentrant capture' added after first run gave no-failing-input-found)", status="caught"),
  "C10-s2": dict(breaks="C10", needs="async function whose body calls itself with a violating argument", caught_by="C10 (async wrapper: marker_released_for_the_body; replay callfam 'body_recursion')", status="caught"),
  "C12-s1": dict(breaks="C12", needs="context copied after the parent's first checked call + a task/thread suspended inside a contract", caught_by="C12 (static obligation: _IN_PROGRESS is a contextvars.ContextVar with default None; replay ctxfam) -- obligation added after this seed was first missed", status="caught after strengthening"),
+ "C03-s1": dict(breaks="C03", needs="base with CALL invariant plus SETATTR-only invariant decorated last; subclass without own invariants overriding a public method", caught_by="C03 (bounded stand-in for add_invariant_checks: invfam 'member selection ...' / 'check_on inheritance')", status="caught (bounded stand-in, not a discharged obligation)"),
+ "C04-s1": dict(breaks="C04", needs="multiple inheritance with the unconstrained base listed first and a base with a postcondition second; child overrides", caught_by="C04 (_decorate_namespace_function loop invariants; replay histfam 'two bases unconstrained first...' added after the first run gave no-failing-input-found)", status="caught"),
+ "C17-s1": dict(breaks="C17 (also C18)", needs="base with CALL-only invariants, subclass given a SETATTR-only invariant", caught_by="C17 C18 C03 (_collapse_invariants: owns_a_list_whenever_it_has_or_inherits_one; replay histfam)", status="caught"),
+ "C15-s1": dict(breaks="C15", needs="ICONTRACT_SLOW set to the empty string in a non-optimised interpreter", caught_by="C15 (symbolic evaluation of the SLOW statement; replay defnfam SLOW_follows_the_environment) -- first run missed it: an unsupported expression in the theorem was not reported; fixed", status="caught after strengthening"),
+ "C19-s1": dict(breaks="C19 (also C09)", needs="ensure(error=<callable that is not a function or method>)", caught_by="C19 C09 (ensure.__init__ against the shared validation spec; replay defnfam error_argument_validation) -- first run was UNDECIDED (callable() unsupported); builtin added", status="caught after strengthening"),
+ "C08-s1": dict(breaks="C08 (also C16 C13)", needs="async function with precondition, snapshot and postcondition; falsy precondition", caught_by="C08 (async wrapper trace: CapBlock before PreBlock)", status="caught"),
+ "C09-s1": dict(breaks="C09 (also C08)", needs="async function, snapshot, violated ensure whose error factory names OLD, no condition naming OLD", caught_by="C09 C08 (async wrapper trace)", status="caught"),
+ "C14-s1": dict(breaks="C14 (also C19)", needs="precondition-only function with a parameter or keyword named result/OLD", caught_by="C14 C19 C01.. (_assert_resolved_kwargs_valid contract: none_iff_valid) -- C14's cone did not include the unit at first; replay case added to defnfam", status="caught after strengthening"),
+ "C18-s1": dict(breaks="C18 (also C02 C04)", needs="DBC override with a functools.wraps decorator above its contract decorators", caught_by="C18 (find_checker: innermost object with the lists; replay histfam 'foreign decorator on an override')", status="caught"),
  "C13-s1": dict(breaks="C13 (also C01)", needs="async method with two precondition groups (inheritance)", caught_by="C13 C01 (_assert_preconditions_async loop obligations)", status="caught"),
 }
 rows = []
